@@ -70,6 +70,7 @@ def main(run):
             run.violation("corpus:" + fn, "corpus program %s: native and wasm differ (or one target no longer builds it)" % fn,
                           {"program": src, "native": {"accepted": a.get("accepted"), "rc": a.get("rc"), "stdout": a.get("out"), "stderr": (a.get("err") or "")[:400]},
                            "wasm": {"accepted": b.get("accepted"), "rc": b.get("rc"), "stdout": b.get("out"), "stderr": (b.get("err") or "")[:400]}})
+    import c02rich; c02rich.run_family(run, work, quick)
     nat = c01.compile_run_all(progs, work, "native", "n")
     was = c01.compile_run_all(progs, work, "wasm", "w")
     both = 0
